@@ -118,7 +118,7 @@ def _roots(opt, p, kind):
     return list(sh.inv_factor_matrices if kind == "shampoo" else sh.factor_matrices_eigenvectors)
 
 
-def drive(ds, torch, kind, N, freq, start, shapes, presence, plans, seed, counters, *, qr=False, grad_poison=None, dtype="float32", extra=None, zero_grad=(), expect_store_overflow=False, group_N=None):
+def drive(ds, torch, kind, N, freq, start, shapes, presence, plans, seed, counters, *, qr=False, grad_poison=None, dtype="float32", extra=None, zero_grad=(), expect_store_overflow=False, group_N=None, onehot=()):
     """run one history under the fault wrapper; raises Violation.  presence[t][j]; plans[t] = {(block, factor): action}."""
     import distributed_shampoo.utils.shampoo_preconditioner_list as pl
 
@@ -144,6 +144,12 @@ def drive(ds, torch, kind, N, freq, start, shapes, presence, plans, seed, counte
         for t in range(len(presence)):
             for j, p in enumerate(params):
                 p.grad = (torch.randn(p.shape, generator=gg, dtype=torch.float32).to(p.dtype) * (0.0 if j in zero_grad else 1.0)) if presence[t][j] else None
+                if p.grad is not None and j in onehot:
+                    # one-hot gradients keep every Gram matrix exactly diagonal (the factor stays flagged diagonal)
+                    val_ = float(p.grad.view(-1)[0])
+                    k_ = int(torch.randint(0, p.numel(), (1,), generator=gg))
+                    p.grad.zero_()
+                    p.grad.view(-1)[0 if (grad_poison and grad_poison.get(t, {}).get(j)) else k_] = val_
                 if p.grad is not None and grad_poison and grad_poison.get(t, {}).get(j):
                     p.grad.view(-1)[0] = float(grad_poison[t][j])
             active = [j for j in range(len(params)) if presence[t][j]]
@@ -311,7 +317,21 @@ def run_case(case):
         return {"counters": counters, "sigs": sigs, "sample": {"family": "rnd", "group_N": group_N, "kind": kind, "qr": qr, "N": N, "frequency": freq, "start": start, "shapes": shapes, "presence_kind": pk, "outcome": out, "plan_step0": {str(k): v for k, v in plans[0].items()}}}
 
     # poison family
-    mode = rnd.choice(["grad_at_refresh", "grad_off_refresh", "routine_returns", "store_overflow"])
+    mode = rnd.choice(["grad_at_refresh", "grad_off_refresh", "routine_returns", "store_overflow", "diag_factor"])
+    if mode == "diag_factor":
+        # NaN/Inf in a factor matrix that is (and stays flagged) exactly diagonal: a one-element block or one-hot gradients.
+        # An infinite diagonal entry inverts entry-wise to a finite 0, so only the check of the FACTOR can stop it.
+        val = rnd.choice(["nan", "inf", "-inf", "inf"])
+        first = rnd.choice([[1], [4]])
+        shapes = [first, [2, 3]] if rnd.random() < 0.5 else [[2, 3], first]
+        zj = shapes.index(first)
+        presence = [[True, True] for _ in range(T)]
+        cand = [t for t in range(T) if refresh_due(t + 1, start, freq)] or [0]
+        gp = {rnd.choice(cand): {zj: val}}
+        out = drive(ds, torch, kind, N, freq, start, shapes, presence, {}, case["seed"], counters, qr=qr, grad_poison=gp, onehot={zj})
+        counters["evals"] += 1
+        counters["diag_factor_poison_runs"] = counters.get("diag_factor_poison_runs", 0) + 1
+        return {"counters": counters, "sigs": [["poison", "diag_factor", kind, val, first[0], freq]] if out == "pve" else [], "sample": {"family": "poison", "mode": mode, "kind": kind, "value": val, "shapes": shapes, "outcome": out}}
     if mode == "store_overflow":
         # the computed root is finite in the preconditioner dtype but overflows the (float16) dtype it is stored in:
         # (0 + 1e-10)^(-1/2) = 1e5 > 65504 for a 1-D block whose gradient is identically zero
